@@ -176,9 +176,184 @@ Print Assumptions C06_agrees.
 Print Assumptions C06_agrees_eos.
 Print Assumptions C06_agrees_top.
 
-(* ------------------------------------------------------------------------
-   [C06_prefix] (the nodes parsed before the first strict error are still
-   returned) has no Coq theorem: it is decided by the model-vs-implementation
-   correspondence of the exact tolerant trees on every case and by the
-   conservative oracle of harness/props/c06.py; listed under PARTIAL.
-   ------------------------------------------------------------------------ *)
+(** * Valid content preceding an error is never lost (proofs in [Proofs/Prefix.v],
+    [Proofs/PrefixSim.v], [Proofs/PrefixColl.v], [Proofs/FaultClose.v])
+
+    PARTIAL: the content before the error is a document of the CORE grammar of
+    C02 ([Doc/DocGrammar.v]: text, groups, macro calls with mandatory braced
+    arguments, inline / display math ([$ $], [\( \)], [\[ \]], [$$ $$]), comments,
+    paragraph breaks; [ok_doc] its
+    side conditions, [tree_of] the node list it means), written at top level;
+    ALL such documents (unbounded depth and size), ALL contexts.  What follows
+    the document is arbitrary. *)
+From PLV Require Import Doc.DocGrammar Proofs.FaultTok Proofs.FaultDoc Proofs.FaultClose Proofs.Prefix.
+
+(** the stray closing tokens: [SBrace] = [}], [SMClose MParen] = [\)],
+    [SMClose MBracket] = [\]], [SEnd x] = [\end{x}] ([x] a non-empty
+    environment name); [stray_wf] excludes [SMClose MDollar] and [SMClose
+    MDollars] ([$] and [$$] are not closing-only tokens: after a document at top
+    level they OPEN a formula, see [C05_dollars_are_not_closing_tokens]) and
+    ill-formed names *)
+
+(** ** A stray closing token after a valid document, then ANY garbage [g]:
+    strict parsing fails at the token ([C05_fault_closing_partial]); tolerant
+    parsing returns EXACTLY the node list of the document — all of it, the
+    trailing whitespace included (it is the pre-space of the stray token and is
+    flushed like whitespace before the end of input) — and stops right after
+    the token: nothing of the valid content is lost, nothing of the garbage
+    gets in. *)
+Theorem C06_prefix_closing_partial : forall cx d c g,
+  ok_doc cx d = true -> stray_wf c ->
+  parse_top (unparse d ++ stray_text c ++ g) true cx (walker_state cx)
+  = Ok (ONode (Some (gen_nodelist 0 (fst (tree_of cx (walker_state cx) 0 d)))))
+       (length (unparse d) + length (stray_text c)).
+Proof. exact prefix_closing. Qed.
+
+(** ** ANY continuation [g] of a valid document (first syntax error anywhere,
+    or none): the tolerant parser returns a node list that begins with the
+    SETTLED nodes of the document — [settled cx l] = the nodes finished when the
+    last item has been read, i.e. all of [tree_of] except a text run still
+    pending at the end of the document (its characters and the document's
+    trailing whitespace go on accumulating with what follows: a following
+    letter extends the run, see [C06_prefix_trailing_run]).  Side condition: if
+    the document has no trailing whitespace, [g] does not start with a letter or
+    a whitespace character ([inertf]; otherwise [g] would change the last token
+    of the document itself, e.g. [\alpha] + [x] is the macro [\alphax]).
+    [ctx_wf] (at most 10 argument slots per specification) is the termination
+    hypothesis of [C06_total]. *)
+Theorem C06_prefix_partial : forall cx d g,
+  ctx_wf cx = true -> ok_doc cx d = true -> (d_trail d = [] -> inertf (hd_error g)) ->
+  exists a b rest p,
+    parse_top (unparse d ++ g) true cx (walker_state cx)
+    = Ok (ONode (Some (NList a b (settled cx (d_items d) ++ rest)))) p.
+Proof. exact prefix_any. Qed.
+
+(** the same for a list of items followed by anything that keeps the last item
+    well formed (the general form: [fol] is the document's trailing whitespace
+    and the garbage) *)
+Theorem C06_prefix_items_partial : forall cx l fol,
+  ctx_wf cx = true -> ok_items cx (walker_state cx) l (hd_error fol) = true ->
+  exists a b rest p,
+    parse_top (unparse_items l ++ fol) true cx (walker_state cx)
+    = Ok (ONode (Some (NList a b (settled cx l ++ rest)))) p.
+Proof. exact prefix_any_items. Qed.
+
+(** what "settled" leaves out: the tree of a document is its settled nodes
+    followed by at most one character node, made of the pending text run of its
+    last item (if that is a text item) and its trailing whitespace *)
+Theorem C06_tree_settled_partial : forall cx d, ok_doc cx d = true ->
+  fst (tree_of cx (walker_state cx) 0 d) = settled cx (d_items d) ++ tail_run cx d.
+Proof. exact tree_settled. Qed.
+
+(** the invariant behind both: the tolerant collector never drops a node it has
+    pushed — for every collector, state, position, fuel and input *)
+Theorem C06_collector_keeps_nodes : forall s cx f ps o st pos,
+  match run s true cx f (TCollect ps o st pos) with
+  | Ok (OColl st' _ _ _) _ => exists m, cs_acc st' = cs_acc st ++ m
+  | PErr e _ => exists m, pe_nodes e = Some (NList None None (cs_acc st ++ m))
+  | _ => True
+  end.
+Proof. exact PrefixColl.coll_keeps. Qed.
+
+(** ** Non-vacuity *)
+Open Scope N_scope.
+
+(** [ab {c $x$}\textbf{d} \alpha ] — text, a group containing math, a macro
+    with an argument, a control word with post-space *)
+Definition c06_doc : doc :=
+  {| d_items := [Text [] [97;98];
+                 Grp [32] [Text [] [99]; Math [32] MDollar [Text [] [120]] []] [];
+                 Mac [] [116;101;120;116;98;102] [] [Grp [] [Text [] [100]] []];
+                 Mac [32] [97;108;112;104;97] [32] []];
+     d_trail := [] |}.
+(** garbage: [x{\end{$] *)
+Definition c06_garbage : str := [120;123;92;101;110;100;123;36].
+
+Example C06_prefix_closing_nonvacuous :
+  ok_doc default_ctx c06_doc = true /\
+  length (fst (tree_of default_ctx (walker_state default_ctx) 0 c06_doc)) = 5%nat /\
+  (* each of the four stray tokens: strict parsing fails, tolerant parsing returns the document's tree *)
+  forallb (fun c =>
+    let s := unparse c06_doc ++ stray_text c ++ c06_garbage in
+    is_perr (parse_top s false default_ctx (walker_state default_ctx)) &&
+    match parse_top s true default_ctx (walker_state default_ctx) with
+    | Ok (ONode (Some (NList _ _ items))) p =>
+        Nat.eqb (length items) 5 && Nat.eqb p (length (unparse c06_doc) + length (stray_text c))
+    | _ => false end)
+    [SBrace; SMClose MParen; SMClose MBracket; SEnd [122;113]] = true.
+Proof. vm_compute. repeat split. Qed.
+
+(** the theorem's equation itself, evaluated independently on one instance *)
+Example C06_prefix_closing_instance :
+  parse_top (unparse c06_doc ++ stray_text SBrace ++ c06_garbage) true default_ctx (walker_state default_ctx)
+  = Ok (ONode (Some (gen_nodelist 0 (fst (tree_of default_ctx (walker_state default_ctx) 0 c06_doc)))))
+       (length (unparse c06_doc) + 1).
+Proof. vm_compute. reflexivity. Qed.
+
+(** [C06_prefix_partial] on garbage that is not a closing token: [{x$] after
+    the document — an unclosed group holding an unclosed formula; the five
+    settled nodes ([ab ], the group, [\textbf{d}], the whitespace before
+    [\alpha], [\alpha ] itself) are the beginning of the result, followed by
+    the recovered group *)
+Example C06_prefix_nonvacuous :
+  let g := [123;120;36] in
+  ctx_wf default_ctx = true /\ ok_doc default_ctx c06_doc = true /\ inertf (hd_error g) /\
+  length (settled default_ctx (d_items c06_doc)) = 5%nat /\
+  is_perr (parse_top (unparse c06_doc ++ g) false default_ctx (walker_state default_ctx)) = true /\
+  match parse_top (unparse c06_doc ++ g) true default_ctx (walker_state default_ctx) with
+  | Ok (ONode (Some (NList _ _ items))) _ =>
+      firstn 5 items = settled default_ctx (d_items c06_doc) /\ length items = 6%nat
+  | _ => False end.
+Proof. vm_compute. repeat split; discriminate. Qed.
+
+(** the caveat about the trailing text run: the document [{c} ab] followed by
+    [cd}] — the settled nodes are the group only; the pending run [ ab] of the
+    document comes back as [ abcd] (one character node, extended by the
+    continuation), which is NOT the node [ ab] of [tree_of] *)
+Example C06_prefix_trailing_run :
+  let d := {| d_items := [Grp [] [Text [] [99]] []; Text [32] [97;98]]; d_trail := [] |} in
+  let g := [99;100;125] in
+  ok_doc default_ctx d = true /\
+  length (settled default_ctx (d_items d)) = 1%nat /\
+  tail_run default_ctx d = [Some (NChars 3 6 {| in_math := false; math_delim := None |} [32;97;98])] /\
+  match parse_top (unparse d ++ g) true default_ctx (walker_state default_ctx) with
+  | Ok (ONode (Some (NList _ _ items))) _ =>
+      firstn 1 items = settled default_ctx (d_items d) /\
+      skipn 1 items = [Some (NChars 3 8 {| in_math := false; math_delim := None |} [32;97;98;99;100])]
+  | _ => False end.
+Proof. vm_compute. repeat split. Qed.
+
+(** [C06_prefix_items_partial]: the items of [c06_doc] followed by [ab$]
+    (text, an unclosed formula) *)
+Example C06_prefix_items_nonvacuous :
+  let fol := [97;98;36] in
+  ok_items default_ctx (walker_state default_ctx) (d_items c06_doc) (hd_error fol) = true /\
+  match parse_top (unparse_items (d_items c06_doc) ++ fol) true default_ctx (walker_state default_ctx) with
+  | Ok (ONode (Some (NList _ _ items))) _ =>
+      firstn 5 items = settled default_ctx (d_items c06_doc) /\ length items = 7%nat
+  | _ => False end.
+Proof. vm_compute. repeat split. Qed.
+
+(** a document with a display formula [$$ $$] (the fourth math kind): [a $$x$$ b]
+    followed by each stray token and the garbage *)
+Example C06_prefix_dollars_nonvacuous :
+  let d := {| d_items := [Text [] [97]; Math [32] MDollars [Text [] [120]] []; Text [32] [98]]; d_trail := [] |} in
+  ok_doc default_ctx d = true /\ unparse d = [97;32;36;36;120;36;36;32;98] /\
+  forallb (fun c =>
+    let s := unparse d ++ stray_text c ++ c06_garbage in
+    is_perr (parse_top s false default_ctx (walker_state default_ctx)) &&
+    match parse_top s true default_ctx (walker_state default_ctx) with
+    | Ok (ONode (Some nl)) p =>
+        Nat.eqb p (length (unparse d) + length (stray_text c)) &&
+        match nl, gen_nodelist 0 (fst (tree_of default_ctx (walker_state default_ctx) 0 d)) with
+        | NList _ _ items, NList _ _ items' => Nat.eqb (length items) 3 && Nat.eqb (length items') 3
+        | _, _ => false end
+    | _ => false end)
+    [SBrace; SMClose MParen; SMClose MBracket; SEnd [122;113]] = true.
+Proof. vm_compute. repeat split. Qed.
+
+Print Assumptions C06_prefix_closing_partial.
+Print Assumptions C06_prefix_partial.
+Print Assumptions C06_prefix_items_partial.
+Print Assumptions C06_tree_settled_partial.
+Print Assumptions C06_collector_keeps_nodes.
